@@ -294,3 +294,26 @@ def engine_build(tier, seed):
     for d in res['divergences']:
         d['tag'] = 'C18'
     return res
+
+
+COMPOSITE_CFG = """SPECIFICATION Spec
+CONSTANTS
+    MaxBufs = 3
+    MaxLen = %d
+    Offsets <- OffsetsDef
+    FlagVals = {0, 16384}
+INVARIANTS
+    SuccessMeansAll
+    Tiled
+    ZeroMeansZero
+    ExportCase
+CHECK_DEADLOCK FALSE
+"""
+
+
+def engine_composite(tier, seed):
+    res = engine_cases('composite', 'MC_Composite', COMPOSITE_CFG % (2 if tier == 'quick' else 3), 'replay_composite',
+                       tier, seed, model='Composite')
+    for d in res['divergences']:
+        d['tag'] = 'C10'
+    return res
